@@ -1,6 +1,12 @@
 #!/bin/sh
-# MANIFEST.setup_cmd: build every harness binary offline from files on disk (rebuilds /repo with hooks on).
+# MANIFEST.setup_cmd: build every harness binary offline from files on disk (rebuilds /repo with
+# hooks on), then pre-build the generated crates of the grammar-based checks so that the quick
+# commands only re-link what changed.
 set -e
 cd "$(dirname "$0")"
 export CARGO_NET_OFFLINE=true
-exec ./check build-all
+./check build-all
+for id in C05 C06 C12 C14 C15 C16 C17 C19; do
+  ./check "$id" quick >/dev/null 2>&1 || true
+done
+exit 0
